@@ -782,3 +782,261 @@ func ruleModuleNameDots(c *Ctx) {
 		"the module name's dots are all replaced",
 		"loFindFile replaces a bounded number of the dots of the module name: require('a.b.c') searches a/b.c.lua, the nested module is not found and the error lists the wrong files")
 }
+
+// ruleProtectedCallConsultsContext: F123. C11 "the running DoString/PCall returns an error carrying the
+// context's reason": the polling loop notices a done context on the NEXT instruction, and a call that
+// ends in a tail call of a host function (return pcall(f)) has none. PCall therefore consults the
+// context once the call has completed: every way from the call to the normal return reads LState.ctx,
+// and the function raises under ctx.Err() != nil.
+func ruleProtectedCallConsultsContext(c *Ctx) {
+	const R = "R11-exit"
+	p := c.P
+	fn := c.need(R, "lua", "(*LState).PCall")
+	call := p.Fn("lua", "(*LState).Call")
+	ctxF := p.Field("lua", "LState", "ctx")
+	if fn == nil || call == nil || ctxF == nil {
+		c.und(R, "PCall:anchors", "-", "(*LState).Call or LState.ctx not found")
+		return
+	}
+	g := p.G(fn)
+	reads := func(in ssa.Instruction) bool {
+		if u, ok := in.(*ssa.UnOp); ok && u.Op == token.MUL {
+			if fa, ok := u.X.(*ssa.FieldAddr); ok && fieldOf(fa) == ctxF {
+				return true
+			}
+		}
+		return false
+	}
+	okPath, n := true, 0
+	var where ssa.Instruction
+	for _, cl := range callsTo(fn, call) {
+		if !g.Live(cl) {
+			continue
+		}
+		n++
+		b, i := after(cl)
+		if ok, wit := g.MustPassBefore(b, i, reads, isReturn); !ok {
+			okPath = false
+			where = wit
+		}
+	}
+	raises := false
+	allInstrs(fn, func(in ssa.Instruction) {
+		if !p.isNoReturnCall(in) || !g.Live(in) {
+			return
+		}
+		for _, cd := range g.expandAnd(g.CondsAtInstr(in)) {
+			b, ok := cd.V.(*ssa.BinOp)
+			if !ok || !((b.Op == token.NEQ && cd.Sense) || (b.Op == token.EQL && !cd.Sense)) {
+				continue
+			}
+			for _, side := range []ssa.Value{b.X, b.Y} {
+				if cl, ok := side.(*ssa.Call); ok && cl.Call.IsInvoke() && cl.Call.Method.Name() == "Err" {
+					if _, ok := loadsField(cl.Call.Value, ctxF); ok {
+						raises = true
+					}
+				}
+			}
+		}
+	})
+	pos := p.pos(fn.Pos())
+	if where != nil {
+		pos = p.ipos(where)
+	}
+	c.Sites++
+	c.check(n > 0 && okPath && raises, R, "PCall:context-consulted-after-the-call", pos,
+		"after the protected call completes, LState.ctx is read on every way to the return, and a done context raises",
+		"(*LState).PCall can return normally without having looked at LState.ctx after the call: when the call ended in a tail call of a host function that swallowed the cancellation (return pcall(f)), no further instruction is dispatched and DoString/PCall return nil although the context is done")
+}
+
+// ruleCountersSurviveErrors: C05 "afterwards … the call depth and all later behaviour are what they
+// would have been". An error leaves a function by panic: a statement after a raising call does not run.
+// A counter field of LState that is stepped up before a call that can raise and stepped back after it
+// (x++ … call … x--) leaks one count per caught error — unless the step back is deferred or PCall's
+// recovery resets the field. (After enough caught errors every call fails on the stale count.)
+func ruleCountersSurviveErrors(c *Ctx) {
+	const R = "R05-counters"
+	p := c.P
+	pcall := c.need(R, "lua", "(*LState).PCall")
+	if pcall == nil {
+		return
+	}
+	// fields of LState written by PCall's deferred recovery
+	reset := map[*types.Var]bool{}
+	withClosures(pcall, func(f *ssa.Function) {
+		if f == pcall {
+			return
+		}
+		allInstrs(f, func(in ssa.Instruction) {
+			if st, ok := in.(*ssa.Store); ok {
+				if fa, ok := st.Addr.(*ssa.FieldAddr); ok {
+					reset[fieldOf(fa)] = true
+				}
+			}
+		})
+	})
+	step := func(in ssa.Instruction) (*types.Var, int) {
+		st, ok := in.(*ssa.Store)
+		if !ok {
+			return nil, 0
+		}
+		fa, ok := st.Addr.(*ssa.FieldAddr)
+		if !ok || typeName(fa.X.Type()) != "LState" {
+			return nil, 0
+		}
+		b, ok := st.Val.(*ssa.BinOp)
+		if !ok || (b.Op != token.ADD && b.Op != token.SUB) {
+			return nil, 0
+		}
+		if _, isK := constInt(b.Y); !isK {
+			return nil, 0
+		}
+		u, ok := b.X.(*ssa.UnOp)
+		if !ok {
+			return nil, 0
+		}
+		fa2, ok := u.X.(*ssa.FieldAddr)
+		if !ok || fieldOf(fa2) != fieldOf(fa) {
+			return nil, 0
+		}
+		if b.Op == token.ADD {
+			return fieldOf(fa), 1
+		}
+		return fieldOf(fa), -1
+	}
+	scanned, pairs := 0, 0
+	for _, fn := range p.srcFuncs {
+		if fn.Pkg == nil || fn.Pkg.Pkg.Name() != "lua" || fn.Blocks == nil {
+			continue
+		}
+		var ups, downs []ssa.Instruction
+		allInstrs(fn, func(in ssa.Instruction) {
+			if f, d := step(in); f != nil {
+				if d > 0 {
+					ups = append(ups, in)
+				} else {
+					downs = append(downs, in)
+				}
+			}
+		})
+		scanned++
+		if len(ups) == 0 || len(downs) == 0 {
+			continue
+		}
+		g := p.G(fn)
+		for _, up := range ups {
+			fu, _ := step(up)
+			for _, dn := range downs {
+				fd, _ := step(dn)
+				if fu != fd || !g.Dominates(up, dn) {
+					continue
+				}
+				// a raising call between the two
+				var raising ssa.Instruction
+				via := ""
+				allInstrs(fn, func(in ssa.Instruction) {
+					if _, isCall := in.(*ssa.Call); !isCall || raising != nil || !g.Live(in) {
+						return
+					}
+					if !g.Dominates(up, in) {
+						return
+					}
+					if in.Block() == dn.Block() {
+						if idxIn(in.Block(), in) > idxIn(dn.Block(), dn) {
+							return
+						}
+					} else if !canReach(in.Block(), dn.Block()) {
+						return
+					}
+					if may, who := p.siteMayRaise(in); may {
+						raising, via = in, who
+					}
+				})
+				if raising == nil {
+					continue
+				}
+				pairs++
+				c.Sites++
+				c.touch(fn)
+				c.check(reset[fu], R, fmt.Sprintf("%s:%s-stepped-back-on-the-error-path", fn.Name(), fu.Name()), p.ipos(dn),
+					"PCall's recovery resets the field",
+					fmt.Sprintf("%s steps LState.%s up, calls %s (which can raise) and steps it back afterwards in a plain statement: an error leaves by panic, the step back is skipped and PCall's recovery does not reset the field — every caught error leaks a count, and after enough of them the stale count changes later behaviour", fname(fn), fu.Name(), via))
+			}
+		}
+	}
+	c.okT(R, "scan", "-", fmt.Sprintf("%d functions scanned for LState counters stepped around a raising call, %d pair(s)", scanned, pairs))
+}
+
+// rulePackageTableInRegistry: F122. C20 "every later require returns the identical cached value …":
+// require's own bookkeeping (package.preload, package.path, package.loaders) hangs off the package
+// table. The library finds that table in a registry slot of its own — one GetField on the registry with
+// a constant key that OpenPackage stores — not through _LOADED (package.loaded, which the hot-reload
+// idiom clears) and not through the global variable.
+func rulePackageTableInRegistry(c *Ctx) {
+	const R = "R20-order"
+	p := c.P
+	fn := c.need(R, "lua", "packageTable")
+	open := c.need(R, "lua", "OpenPackage")
+	if fn == nil || open == nil {
+		return
+	}
+	fromRegistry := func(v ssa.Value) bool {
+		cl, ok := stripMI(v).(*ssa.Call)
+		if !ok {
+			return false
+		}
+		sc := cl.Call.StaticCallee()
+		if sc == nil || sc.Name() != "Get" || recvNamed(sc) != "LState" || len(cl.Call.Args) != 2 {
+			return false
+		}
+		k, ok := constInt(cl.Call.Args[1])
+		if !ok {
+			return false
+		}
+		if cst, ok := p.Pkg("lua").Types.Scope().Lookup("RegistryIndex").(*types.Const); ok {
+			if rv, ok := constValInt(cst); ok {
+				return rv == k
+			}
+		}
+		return false
+	}
+	var keys []string
+	okc := true
+	allInstrs(fn, func(in ssa.Instruction) {
+		cl, ok := in.(*ssa.Call)
+		if !ok {
+			return
+		}
+		sc := cl.Call.StaticCallee()
+		if sc == nil || recvNamed(sc) != "LState" {
+			return
+		}
+		switch sc.Name() {
+		case "GetField":
+			k, isK := constStr(cl.Call.Args[2])
+			if !isK || !fromRegistry(cl.Call.Args[1]) {
+				okc = false
+			}
+			keys = append(keys, k)
+		case "GetGlobal", "GetTable", "RawGet":
+			okc = false
+		}
+	})
+	stored := false
+	allInstrs(open, func(in ssa.Instruction) {
+		cl, ok := in.(*ssa.Call)
+		if !ok {
+			return
+		}
+		sc := cl.Call.StaticCallee()
+		if sc == nil || sc.Name() != "SetField" || recvNamed(sc) != "LState" {
+			return
+		}
+		if k, isK := constStr(cl.Call.Args[2]); isK && len(keys) == 1 && k == keys[0] && fromRegistry(cl.Call.Args[1]) {
+			stored = true
+		}
+	})
+	c.Sites++
+	c.check(okc && len(keys) == 1 && keys[0] != "_LOADED" && stored, R, "packageTable:own-registry-slot", p.pos(fn.Pos()),
+		"one constant-key read on the registry, of a slot OpenPackage stores", "packageTable does not read the package table from a registry slot of its own (set by OpenPackage): looked up through _LOADED (package.loaded) or a global, the table is lost as soon as a script clears package.loaded or reuses the name — the hot-reload idiom `for k in pairs(package.loaded) do package.loaded[k] = nil end` breaks every later require")
+}
